@@ -607,19 +607,40 @@ def r07_5(ctx):
     need(gs is not None and ss is not None, "Array.__getstate__/__setstate__")
     dropped = []
     opaque = False
+
+    def keys_of(e):
+        """String keys an index expression may denote: a literal, or the target of a ``for`` over a literal collection."""
+        v = const_value(e)
+        if isinstance(v, str):
+            return [v]
+        if isinstance(e, ast.Name):
+            out = []
+            for loop in ast.walk(gs.node):
+                if isinstance(loop, ast.For) and isinstance(loop.target, ast.Name) and loop.target.id == e.id:
+                    vals = const_value(loop.iter)
+                    if isinstance(vals, (tuple, list, set, frozenset)) and all(isinstance(x, str) for x in vals):
+                        out.extend(vals)
+                    else:
+                        return None
+            return out or None
+        return None
+
     for n in body_walk(gs.node):
         if isinstance(n, ast.Call) and isinstance(n.func, ast.Attribute) and n.func.attr == "pop" and n.args:
-            v = const_value(n.args[0])
-            if isinstance(v, str):
-                dropped.append(v)
-            else:
+            ks = keys_of(n.args[0])
+            if ks is None:
                 opaque = True
+            else:
+                dropped.extend(ks)
         if isinstance(n, ast.Delete):
             for t in n.targets:
                 if isinstance(t, ast.Subscript):
-                    v = const_value(t.slice)
-                    dropped.append(v if isinstance(v, str) else "?")
-                    opaque = opaque or not isinstance(v, str)
+                    ks = keys_of(t.slice)
+                    if ks is None:
+                        opaque = True
+                        dropped.append("?")
+                    else:
+                        dropped.extend(ks)
         if isinstance(n, (ast.DictComp,)):
             opaque = True  # filtering comprehension: cannot enumerate what is kept
     rets = [n for n in body_walk(gs.node) if isinstance(n, ast.Return)]
